@@ -56,10 +56,10 @@ def _bv(x, w):
         return z3.ZeroExt(w - x.w, x.e) if x.w < w else z3.Extract(w - 1, 0, x.e)
     return z3.BitVecVal(int(x), w)
 
-class SymInt(int):
+class SymInt:
     """unsigned; results are widened to 64 bits for + - * so that no wrap occurs on small operands"""
-    def __new__(cls, e, w):
-        o = int.__new__(cls, 0); o.e = e; o.w = w; return o
+    def __init__(self, e, w):
+        self.e = e; self.w = w
     def _w(self, o): return max(self.w, o.w if isinstance(o, SymInt) else 0)
     def _ar(self, o, f):
         w = max(self._w(o), 64); return SymInt(f(_bv(self, w), _bv(o, w)), w)
@@ -81,7 +81,7 @@ class SymInt(int):
     __lt__ = lambda s, o: s._cmp(o, z3.ULT); __le__ = lambda s, o: s._cmp(o, z3.ULE)
     __gt__ = lambda s, o: s._cmp(o, z3.UGT); __ge__ = lambda s, o: s._cmp(o, z3.UGE)
     __index__ = lambda s: concretize(s)
-    __int__ = lambda s: s
+    __int__ = lambda s: concretize(s)
     __bool__ = lambda s: bool(s != 0)
     def __hash__(self): return hash(concretize(self))
     def __repr__(self): return f"<sym{self.w}>"
@@ -112,3 +112,13 @@ def explore(fn):
             n["val"] = not n["val"]; n["pending"] = False
         else:
             n["tried"].append(n["val"]); n["val"] = None
+
+import builtins
+_real_isinstance = builtins.isinstance
+def sym_isinstance(obj, cls):
+    if type(obj) is SymInt:
+        if cls is int or (_real_isinstance(cls, tuple) and int in cls): return True
+        return False
+    return _real_isinstance(obj, cls)
+def install_isinstance(*modules):
+    for m in modules: m.__dict__["isinstance"] = sym_isinstance
